@@ -283,9 +283,9 @@ Props/Properties_C14.vos Props/Properties_C14.vok Props/Properties_C14.required_
 Props/Properties_C15.vo Props/Properties_C15.glob Props/Properties_C15.v.beautified Props/Properties_C15.required_vo: Props/Properties_C15.v Chess/Rules.vo Engine/Classify.vo Engine/RepAbs.vo Engine/RepRefineLegal.vo Engine/ClassifyProofs.vo
 Props/Properties_C15.vio: Props/Properties_C15.v Chess/Rules.vio Engine/Classify.vio Engine/RepAbs.vio Engine/RepRefineLegal.vio Engine/ClassifyProofs.vio
 Props/Properties_C15.vos Props/Properties_C15.vok Props/Properties_C15.required_vos: Props/Properties_C15.v Chess/Rules.vos Engine/Classify.vos Engine/RepAbs.vos Engine/RepRefineLegal.vos Engine/ClassifyProofs.vos
-Props/Properties_C16.vo Props/Properties_C16.glob Props/Properties_C16.v.beautified Props/Properties_C16.required_vo: Props/Properties_C16.v Engine/Encoding.vo Engine/EncodingProofs.vo Chess/Rules.vo Chess/Fen.vo Chess/TextProofs.vo
-Props/Properties_C16.vio: Props/Properties_C16.v Engine/Encoding.vio Engine/EncodingProofs.vio Chess/Rules.vio Chess/Fen.vio Chess/TextProofs.vio
-Props/Properties_C16.vos Props/Properties_C16.vok Props/Properties_C16.required_vos: Props/Properties_C16.v Engine/Encoding.vos Engine/EncodingProofs.vos Chess/Rules.vos Chess/Fen.vos Chess/TextProofs.vos
+Props/Properties_C16.vo Props/Properties_C16.glob Props/Properties_C16.v.beautified Props/Properties_C16.required_vo: Props/Properties_C16.v Engine/Encoding.vo Engine/EncodingProofs.vo Chess/Rules.vo Chess/Fen.vo Chess/TextProofs.vo Engine/UciSession.vo
+Props/Properties_C16.vio: Props/Properties_C16.v Engine/Encoding.vio Engine/EncodingProofs.vio Chess/Rules.vio Chess/Fen.vio Chess/TextProofs.vio Engine/UciSession.vio
+Props/Properties_C16.vos Props/Properties_C16.vok Props/Properties_C16.required_vos: Props/Properties_C16.v Engine/Encoding.vos Engine/EncodingProofs.vos Chess/Rules.vos Chess/Fen.vos Chess/TextProofs.vos Engine/UciSession.vos
 Props/Properties_C17.vo Props/Properties_C17.glob Props/Properties_C17.v.beautified Props/Properties_C17.required_vo: Props/Properties_C17.v Chess/Rules.vo Chess/San.vo
 Props/Properties_C17.vio: Props/Properties_C17.v Chess/Rules.vio Chess/San.vio
 Props/Properties_C17.vos Props/Properties_C17.vok Props/Properties_C17.required_vos: Props/Properties_C17.v Chess/Rules.vos Chess/San.vos
